@@ -117,8 +117,12 @@ Definition consuming (rows : list srow) : list prow := with_percent (filter is_c
 Definition reaction_row (s : solution) (fva : option fva_frame) (rid : Z) : Q * option (Q * Q) :=
   (getq rid s, row_range fva rid).
 
-(* _string_flux after fixes/reaction-summary-threshold.patch: values below the threshold are
-   displayed as zero instead of the row being dropped (which made frame.at[...] raise KeyError). *)
+(* _string_flux after fixes/reaction-summary-threshold.patch: the row is displayed unchanged when
+   |flux| (or, with fva, |minimum| or |maximum|) reaches the threshold; otherwise zeros are
+   displayed (the unpatched code dropped the row and frame.at[...] raised KeyError).        *)
 Definition reaction_display (threshold : Q) (row : Q * option (Q * Q)) : Q * option (Q * Q) :=
-  (where_ge threshold (fst row),
-   match snd row with None => None | Some (a, b) => Some (where_ge threshold a, where_ge threshold b) end).
+  let shown x := Qle_bool threshold (Qabs x) in
+  match snd row with
+  | None => if shown (fst row) then row else (0, None)
+  | Some (a, b) => if shown (fst row) || shown a || shown b then row else (0, Some (0, 0))
+  end.
